@@ -333,9 +333,13 @@ func buildExpr(t []string) (carapace.Action, []string) {
 		}
 		return sub().NoSpace(rs...), t
 	case "Q":
-		l := list()
+		l := append([]string{}, list()...) // the tokens belong to the case
 		for i := range l {
-			l[i] = regexp.QuoteMeta(l[i])
+			if strings.HasPrefix(l[i], "\x01I") { // tagged: ignore case, by an ungrouped inline flag
+				l[i] = "(?i)" + regexp.QuoteMeta(l[i][2:])
+			} else {
+				l[i] = regexp.QuoteMeta(l[i])
+			}
 		}
 		return sub().Suppress(l...), t
 	case "L":
